@@ -4,7 +4,7 @@ from __future__ import annotations
 import ast
 
 from ..cfg import handler_names, iter_own
-from ..loader import AnalysisError, ClassInfo, FuncInfo, dotted, walk_own
+from ..loader import exc_expr, AnalysisError, ClassInfo, FuncInfo, dotted, walk_own
 from .c05 import StarterFacts
 from .common import Anchors, call_name, include_rules, is_const, names_in, self_attr
 from .discharge import controlling_tests
@@ -294,7 +294,7 @@ def run(ctx) -> None:
             after = wcfg.reach([sleeps[0].id], edge_ok=normal)
             rep.check("C07.R5", wcfg.exit not in after, wd, wd.node, "after the sleep every path raises", "the watchdog can return normally after the timeout elapsed (no TimeoutError)")
             raises = [wcfg.nodes[i] for i in after if wcfg.nodes[i].kind == "stmt" and isinstance(wcfg.nodes[i].ast, ast.Raise)]
-            rep.check("C07.R5", bool(raises) and all("TimeoutError" in ast.unparse(r.ast.exc) for r in raises if r.ast.exc is not None), wd, raises[0].ast if raises else wd.node, "it raises TimeoutError", "the watchdog raises something other than TimeoutError")
+            rep.check("C07.R5", bool(raises) and all("TimeoutError" in ast.unparse(exc_expr(r.ast)) for r in raises if r.ast.exc is not None), wd, raises[0].ast if raises else wd.node, "it raises TimeoutError", "the watchdog raises something other than TimeoutError")
             before = [n for n in wcfg.live_nodes() if sleeps[0].id in wcfg.reach([n.id], edge_ok=normal) and n.id != sleeps[0].id and a.node_checkpoints(wd, wcfg, n)]
             rep.check("C07.R5", not before, wd, sleeps[0].ast, "nothing else is awaited before the sleep", "the watchdog awaits something before sleeping")
         else:
